@@ -55,6 +55,7 @@ theorem inv_step (c : Nat) (hist : List (Store × In)) (st : St) (db : Store) (i
         · split
           · simp [Inv]
           · simp [Inv]
+          · simp [Inv]
           · split <;> simp [Inv]
 
 theorem inv_after (c : Nat) (pre hist : List (Store × In)) (st : St) (h : Inv c pre st) :
@@ -98,6 +99,7 @@ theorem step_install_iff (c : Nat) (db : Store) (st : St) (i : In) :
         · simp at hs
         · rename_i name sig hopen
           split at hs
+          · simp at hs
           · simp at hs
           · simp at hs
           · rename_i pk hdb
